@@ -52,6 +52,7 @@ VARIABLES
   exh,       \* scheduler answered "nothing left"
   phase,     \* "loop" | "fin" | "done"
   dead,      \* trials whose failure / external stop the back-end has reported to the loop
+  xf,        \* trials whose run exited on its own and has been polled since, while registered as running
   cq,        \* [Trials -> number of queued clone decisions naming the trial, taken while its checkpoint existed]
   flags,     \* set of raised flags
   \* ---- program (Tuner.run locals / attributes, generic backend state)
@@ -61,7 +62,7 @@ VARIABLES
   pst        \* trials the scheduler marked as stopped (PBTTrialState.stopped)
 
 envV  == <<wst, em, ext>>
-monV  == <<dl, life, dec, ps, ck, rmv, nstart, nhand, stopHeld, exh, phase, dead, cq, flags>>
+monV  == <<dl, life, dec, ps, ck, rmv, nstart, nhand, stopHeld, exh, phase, dead, xf, cq, flags>>
 progV == <<pc, running, seen, batch, snap, done, sstop, lsr, tss, stopReached, exhausted, todoN, cur, todo, exc, stack, pst>>
 vars  == <<cf, envV, monV, progV>>
 
@@ -96,7 +97,7 @@ W_Emit(t) ==
   /\ cf.r3 => pc \notin {"stop", "pause"}                \* environment restriction excluding known finding F03
   /\ em' = [em EXCEPT ![t][CurRun(t)] = @ + 1]
   /\ ck' = [ck EXCEPT ![t] = "present"]      \* the script checkpoints at every report
-  /\ UNCHANGED <<wst, ext, dl, life, dec, ps, rmv, nstart, nhand, stopHeld, exh, phase, dead, cq, flags>>
+  /\ UNCHANGED <<wst, ext, dl, life, dec, ps, rmv, nstart, nhand, stopHeld, exh, phase, dead, xf, cq, flags>>
 
 W_Exit(t) ==
   /\ wst[t] = "busy" /\ (em[t][CurRun(t)] > 0 \/ cf.emptyexit)
@@ -122,7 +123,13 @@ W_ExtStop(t) ==
 EvFetch(n, D) ==
   /\ nhand' = nhand + n
   /\ dead' = dead \cup D
+  \* a run that exited on its own before this poll and is registered as running: this poll has to see it
+  /\ xf' = xf \cup {t \in Trials : wst[t] = "ok" /\ life[t] = "running"}
   /\ UNCHANGED <<envV, dl, life, dec, ps, ck, rmv, nstart, stopHeld, exh, phase, cq, flags>>
+
+\* backend.busy_trial_ids() returned S (start_jobs_without_delay = False): an observation of the processes
+EvBusy(S) ==
+  /\ UNCHANGED <<envV, monV>>
 
 \* scheduler.on_trial_result(trial t, report <<r, i>>) returned decision d
 EvResult(t, r, i, d) ==
@@ -137,7 +144,7 @@ EvResult(t, r, i, d) ==
        \cup Flag(phase # "loop", "result_after_end")
   /\ dl'  = IF r = c /\ r >= 1 THEN [dl EXCEPT ![t][r] = i] ELSE dl
   /\ dec' = IF d \in {"STOP", "PAUSE"} THEN [dec EXCEPT ![t] = d] ELSE dec
-  /\ UNCHANGED <<envV, life, ps, ck, rmv, nstart, nhand, stopHeld, exh, phase, dead, cq>>
+  /\ UNCHANGED <<envV, life, ps, ck, rmv, nstart, nhand, stopHeld, exh, phase, dead, xf, cq>>
 
 \* backend.stop_trial(t) / backend.pause_trial(t): immediate kill
 EvStopTrial(t) ==
@@ -145,28 +152,28 @@ EvStopTrial(t) ==
                     \cup Flag(dec[t] # "STOP" /\ phase = "loop", "stop_without_decision")
   /\ wst'  = [wst EXCEPT ![t] = IF @ = "busy" THEN "killed" ELSE @]
   /\ life' = [life EXCEPT ![t] = "stopped"]
-  /\ UNCHANGED <<em, ext, dl, dec, ps, ck, rmv, nstart, nhand, stopHeld, exh, phase, dead, cq>>
+  /\ UNCHANGED <<em, ext, dl, dec, ps, ck, rmv, nstart, nhand, stopHeld, exh, phase, dead, xf, cq>>
 
 EvPauseTrial(t) ==
   /\ flags' = flags \cup Flag(life[t] # "running", "pause_not_running")
                     \cup Flag(dec[t] # "PAUSE", "pause_without_decision")
   /\ wst'  = [wst EXCEPT ![t] = IF @ = "busy" THEN "killed" ELSE @]
   /\ life' = [life EXCEPT ![t] = "paused"]
-  /\ UNCHANGED <<em, ext, dl, dec, ps, ck, rmv, nstart, nhand, stopHeld, exh, phase, dead, cq>>
+  /\ UNCHANGED <<em, ext, dl, dec, ps, ck, rmv, nstart, nhand, stopHeld, exh, phase, dead, xf, cq>>
 
 \* scheduler.on_trial_remove / on_trial_complete / on_trial_error
 EvRemove(t) ==
   /\ flags' = flags \cup Flag(ps[t] # "live", "protocol_remove")
                     \cup Flag(dec[t] = "none", "remove_without_decision")
   /\ ps' = [ps EXCEPT ![t] = "removed"]
-  /\ UNCHANGED <<envV, dl, life, dec, ck, rmv, nstart, nhand, stopHeld, exh, phase, dead, cq>>
+  /\ UNCHANGED <<envV, dl, life, dec, ck, rmv, nstart, nhand, stopHeld, exh, phase, dead, xf, cq>>
 
 EvComplete(t) ==
   /\ flags' = flags \cup Flag(ps[t] # "live", "protocol_complete")
                     \cup Flag(wst[t] # "ok", "complete_not_exited")
                     \cup Flag(CurRun(t) >= 1 /\ dl[t][CurRun(t)] < em[t][CurRun(t)], "complete_missing")  \* C02
   /\ ps' = [ps EXCEPT ![t] = "completed"]
-  /\ UNCHANGED <<envV, dl, life, dec, ck, rmv, nstart, nhand, stopHeld, exh, phase, dead, cq>>
+  /\ UNCHANGED <<envV, dl, life, dec, ck, rmv, nstart, nhand, stopHeld, exh, phase, dead, xf, cq>>
 
 EvError(t) ==
   /\ flags' = flags \cup Flag(ps[t] = "removed", "error_after_remove")       \* C01: second end-of-run notification
@@ -175,13 +182,13 @@ EvError(t) ==
   /\ ps' = [ps EXCEPT ![t] = "errored"]
   \* an observed crash is registered as failed whatever was decided before
   /\ life' = [life EXCEPT ![t] = IF wst[t] = "fail" THEN "failed" ELSE IF @ = "running" THEN "stopped" ELSE @]
-  /\ UNCHANGED <<envV, dl, dec, ck, rmv, nstart, nhand, stopHeld, exh, phase, dead, cq>>
+  /\ UNCHANGED <<envV, dl, dec, ck, rmv, nstart, nhand, stopHeld, exh, phase, dead, xf, cq>>
 
 \* TunerCallback.on_trial_complete: the loop registered t as completed
 EvCbComplete(t) ==
   /\ flags' = flags \cup Flag(wst[t] # "ok", "complete_not_exited")
   /\ life' = [life EXCEPT ![t] = IF @ = "running" THEN "completed" ELSE @]
-  /\ UNCHANGED <<envV, dl, dec, ps, ck, rmv, nstart, nhand, stopHeld, exh, phase, dead, cq>>
+  /\ UNCHANGED <<envV, dl, dec, ps, ck, rmv, nstart, nhand, stopHeld, exh, phase, dead, xf, cq>>
 
 \* backend.start_trial(config, checkpoint_trial_id = from) returned trial t
 EvStart(t, from) ==
@@ -203,18 +210,19 @@ EvStart(t, from) ==
   /\ ck'  = [ck EXCEPT ![t] = IF from # NoTrial THEN "present" ELSE "none"]
   /\ nstart' = nstart + 1
   /\ cq' = IF from \in Trials /\ cq[from] > 0 THEN [cq EXCEPT ![from] = @ - 1] ELSE cq
+  /\ xf' = xf \ {t}
   /\ UNCHANGED <<ext, dec, ps, rmv, nhand, stopHeld, exh, phase, dead>>
 
 EvAdd(t) ==
   /\ flags' = flags \cup Flag(ps[t] # "new" \/ life[t] # "running", "protocol_add")
   /\ ps' = [ps EXCEPT ![t] = "live"]
-  /\ UNCHANGED <<envV, dl, life, dec, ck, rmv, nstart, nhand, stopHeld, exh, phase, dead, cq>>
+  /\ UNCHANGED <<envV, dl, life, dec, ck, rmv, nstart, nhand, stopHeld, exh, phase, dead, xf, cq>>
 
 \* the scheduler queued "start a new trial from the checkpoint of s" for a later suggest()
 \* (PopulationBasedTraining._trial_decisions_stack.append, inside on_trial_result)
 EvQueue(s) ==
   /\ cq' = IF s \in Trials /\ ck[s] = "present" THEN [cq EXCEPT ![s] = @ + 1] ELSE cq
-  /\ UNCHANGED <<envV, dl, life, dec, ps, ck, rmv, nstart, nhand, stopHeld, exh, phase, dead, flags>>
+  /\ UNCHANGED <<envV, dl, life, dec, ps, ck, rmv, nstart, nhand, stopHeld, exh, phase, dead, xf, flags>>
 
 \* backend.resume_trial(t)
 EvResume(t) ==
@@ -232,6 +240,7 @@ EvResume(t) ==
   /\ dec' = [dec EXCEPT ![t] = "none"]
   /\ life' = [life EXCEPT ![t] = "running"]
   /\ ps'  = [ps EXCEPT ![t] = "live"]
+  /\ xf' = xf \ {t}
   /\ UNCHANGED <<ext, ck, rmv, nstart, nhand, stopHeld, exh, phase, dead, cq>>
 
 \* backend.delete_checkpoint(t)
@@ -240,17 +249,17 @@ EvDelete(t) ==
                                  \/ phase # "loop"
                                  \/ (life[t] = "paused" /\ t \in rmv) ), "delete_live")   \* C20
   /\ ck' = [ck EXCEPT ![t] = IF @ = "none" THEN "none" ELSE "deleted"]
-  /\ UNCHANGED <<envV, dl, life, dec, ps, rmv, nstart, nhand, stopHeld, exh, phase, dead, cq>>
+  /\ UNCHANGED <<envV, dl, life, dec, ps, rmv, nstart, nhand, stopHeld, exh, phase, dead, xf, cq>>
 
 \* the scheduler declares S as never-resumable (trials_checkpoints_can_be_removed)
 EvRemovable(S) ==
   /\ rmv' = rmv \cup S
-  /\ UNCHANGED <<envV, dl, life, dec, ps, ck, nstart, nhand, stopHeld, exh, phase, dead, cq, flags>>
+  /\ UNCHANGED <<envV, dl, life, dec, ps, ck, nstart, nhand, stopHeld, exh, phase, dead, xf, cq, flags>>
 
 \* scheduler.suggest returned None
 EvExhausted ==
   /\ exh' = TRUE
-  /\ UNCHANGED <<envV, dl, life, dec, ps, ck, rmv, nstart, nhand, stopHeld, phase, dead, cq, flags>>
+  /\ UNCHANGED <<envV, dl, life, dec, ps, ck, rmv, nstart, nhand, stopHeld, phase, dead, xf, cq, flags>>
 
 \* counters the monitor derives from the events
 MonFailed   == NumLife({"failed"})
@@ -267,13 +276,16 @@ EvStopCrit(b) ==
                                \/ (cf.ckind = "script" /\ MonFailed > cf.maxfail /\ ~b), "criterion_mismatch")  \* C12
                     \* C13: at the end of the iteration every failure the back-end reported has been passed on
                     \cup Flag(\E t \in dead : ps[t] = "live", "failure_not_notified")
+                    \* C01 / C02: a run that exited on its own was polled in a complete iteration, and the loop still has
+                    \* it registered as running (its last reports and its end were never passed on)
+                    \cup Flag(\E t \in xf : life[t] = "running", "completed_unregistered")
   /\ stopHeld' = (stopHeld \/ b)
-  /\ UNCHANGED <<envV, dl, life, dec, ps, ck, rmv, nstart, nhand, exh, phase, dead, cq>>
+  /\ UNCHANGED <<envV, dl, life, dec, ps, ck, rmv, nstart, nhand, exh, phase, dead, xf, cq>>
 
 \* on_loop_start: a new iteration begins
 EvIter ==
   /\ flags' = flags \cup Flag(stopHeld /\ ~(cf.wait /\ NumLife({"running"}) > 0), "loop_after_stop")   \* C12
-  /\ UNCHANGED <<envV, dl, life, dec, ps, ck, rmv, nstart, nhand, stopHeld, exh, phase, dead, cq>>
+  /\ UNCHANGED <<envV, dl, life, dec, ps, ck, rmv, nstart, nhand, stopHeld, exh, phase, dead, xf, cq>>
 
 \* backend.stop_all(): S = trials it stopped
 EvStopAll(S) ==
@@ -281,7 +293,7 @@ EvStopAll(S) ==
   \* from the tuner's point of view everything it believed running is now stopped
   /\ life' = [t \in Trials |-> IF life[t] = "running" THEN "stopped" ELSE life[t]]
   /\ phase' = "fin"
-  /\ UNCHANGED <<em, ext, dl, dec, ps, ck, rmv, nstart, nhand, stopHeld, exh, dead, cq, flags>>
+  /\ UNCHANGED <<em, ext, dl, dec, ps, ck, rmv, nstart, nhand, stopHeld, exh, dead, xf, cq, flags>>
 
 \* run() returned (kind = "normal") or raised (kind = "failure": named = trial in the message;
 \* kind = "nometrics": a trial completed without reporting; "other")
@@ -302,7 +314,7 @@ EvEnd(kind, named, cnt) ==
        \cup Flag(kind \in {"normal", "failure"} /\ cnt # <<>> /\ cnt # <<nstart, NumLife({"completed"}), NumLife({"failed"}),
                                       NumLife({"completed", "stopped", "failed"})>>, "counters")   \* C12
   /\ phase' = "done"
-  /\ UNCHANGED <<envV, dl, life, dec, ps, ck, rmv, nstart, nhand, stopHeld, exh, dead, cq>>
+  /\ UNCHANGED <<envV, dl, life, dec, ps, ck, rmv, nstart, nhand, stopHeld, exh, dead, xf, cq>>
 
 ----------------------------------------------------------------------------
 (* The properties, as invariants over the monitor *)
@@ -316,12 +328,12 @@ LifeCycle           == NoFlag("stop_not_running") /\ NoFlag("pause_not_running")
 ResumeOnlyPaused    == NoFlag("resume_not_paused")
 CallbackProtocol    == /\ NoFlag("protocol_add") /\ NoFlag("protocol_remove") /\ NoFlag("protocol_complete")
                        /\ NoFlag("protocol_error") /\ NoFlag("error_after_remove") /\ NoFlag("protocol_resume") /\ NoFlag("result_outside_run")
-                       /\ NoFlag("remove_without_decision") /\ NoFlag("result_after_end")
+                       /\ NoFlag("remove_without_decision") /\ NoFlag("result_after_end") /\ NoFlag("completed_unregistered")
 \* C02
 DeliveredIsPrefix   == NoFlag("gap_or_dup") /\ NoFlag("phantom")
 NothingAfterDecision == NoFlag("after_decision")
 ResumeStartsNewRun  == NoFlag("stale_hidden_tail") /\ NoFlag("stale_duplicate")
-CompleteMeansAll    == NoFlag("complete_missing") /\ NoFlag("complete_not_exited")
+CompleteMeansAll    == NoFlag("complete_missing") /\ NoFlag("complete_not_exited") /\ NoFlag("completed_unregistered")
 \* C12
 NoStartAfterStop    == NoFlag("start_after_stop") /\ NoFlag("loop_after_stop")
 EndsOnCriterion     == NoFlag("criterion_mismatch") /\ NoFlag("ended_early") /\ NoFlag("overshoot")
@@ -347,7 +359,7 @@ InitCommon(c) ==
   /\ dec = [t \in Trials |-> "none"] /\ ps = [t \in Trials |-> "new"]
   /\ ck = [t \in Trials |-> "none"] /\ rmv = {} /\ nstart = 0 /\ nhand = 0
   /\ stopHeld = FALSE /\ exh = FALSE /\ phase = "loop" /\ dead = {} /\ flags = {}
-  /\ cq = [t \in Trials |-> 0] /\ stack = <<>> /\ pst = {}
+  /\ cq = [t \in Trials |-> 0] /\ xf = {} /\ stack = <<>> /\ pst = {}
   /\ pc = "stopcond0" /\ running = {} /\ seen = [t \in Trials |-> 0]
   /\ batch = [t \in Trials |-> <<0, 0>>] /\ snap = [t \in Trials |-> "none"]
   /\ done = [t \in Trials |-> "none"] /\ sstop = {} /\ lsr = {}
@@ -503,11 +515,26 @@ T_Sched ==
   /\ IF exhausted \/ (cf.wait /\ stopReached)
        THEN /\ pc' = IF running # {} THEN "loopend" ELSE "finally"    \* sleep / break
             /\ todoN' = 0
-       ELSE LET thr == IF cf.async THEN cf.nw ELSE 1 IN
+       ELSE IF ~cf.sjwd
+         THEN pc' = "busy" /\ todoN' = 0           \* start_jobs_without_delay = False: ask the back-end
+         ELSE LET thr == IF cf.async THEN cf.nw ELSE 1 IN
             IF Cardinality(running) >= thr
               THEN pc' = "loopend" /\ todoN' = 0                        \* sleep
               ELSE pc' = "suggest" /\ todoN' = cf.nw - Cardinality(running)
   /\ UNCHANGED <<cf, envV, monV, running, seen, batch, snap, done, sstop, lsr, tss, stopReached, exhausted, cur, todo, exc, stack, pst>>
+
+\* _schedule_new_tasks with start_jobs_without_delay = False: num_busy_workers = len(backend.busy_trial_ids());
+\* new trials are added to the caller's running set (the statement that re-bound the local name to the busy set,
+\* and thereby lost the new trials, was removed by the fix recorded as F14)
+BackendBusy == {t \in Trials : wst[t] # "none" /\ BackendStatus(t) = "InProgress"}
+T_Busy ==
+  /\ pc = "busy"
+  /\ EvBusy(BackendBusy)
+  /\ LET thr == IF cf.async THEN cf.nw ELSE 1
+         nb  == Cardinality(BackendBusy) IN
+       IF nb >= thr THEN pc' = "loopend" /\ todoN' = 0
+                    ELSE pc' = "suggest" /\ todoN' = cf.nw - nb
+  /\ UNCHANGED <<cf, running, seen, batch, snap, done, sstop, lsr, tss, stopReached, exhausted, cur, todo, exc, stack, pst>>
 
 \* scheduler.suggest(): an abstract LEGAL scheduler -- a new trial, a paused trial it removed, or None
 T_SuggestNew ==
@@ -563,7 +590,7 @@ T_End ==
 \* Worker steps commute with every tuner step that does not observe the processes; it is
 \* therefore enough (and sound for the monitored properties) to let them happen right
 \* before an observation: a poll, a kill, the final stop_all.
-ObsPoint == pc \in {"fetch", "stop", "pause", "finally"}
+ObsPoint == pc \in {"fetch", "stop", "pause", "finally", "busy"}
 W_Step ==
   /\ ObsPoint
   /\ \E t \in Trials : W_Emit(t) \/ W_Exit(t) \/ W_Fail(t) \/ W_ExtStop(t)
@@ -574,7 +601,7 @@ T_Step ==
   \/ \E t \in Trials, d \in Decisions : T_Result(t, d)
   \/ \E t \in Trials, s \in Trials : T_Exploit(t, s)
   \/ T_Stop \/ T_StopDel \/ T_Pause \/ T_Remove \/ T_ResultsDone \/ T_Status \/ T_CbComplete
-  \/ T_StatusUpdate \/ T_Sched \/ T_SuggestNew \/ T_Add \/ (\E t \in Trials : T_SuggestResume(t))
+  \/ T_StatusUpdate \/ T_Sched \/ T_Busy \/ T_SuggestNew \/ T_Add \/ (\E t \in Trials : T_SuggestResume(t))
   \/ T_SuggestNone \/ T_SuggestDone \/ T_LoopEnd \/ T_StopAll \/ T_End
 
 Next == T_Step \/ W_Step
